@@ -71,6 +71,47 @@ pub fn craft_add31(rng: &mut Rng, pos: usize, target: u64) -> Option<(Vec<u8>, V
     None
 }
 
+fn eea_iv(count: u32, bearer: u32, dir: u32) -> Vec<u8> {
+    let c = count.to_be_bytes(); let b = ((((bearer & 0x1f) << 1) | (dir & 1)) << 2) as u8;
+    vec![c[0], c[1], c[2], c[3], b, 0, 0, 0, c[0], c[1], c[2], c[3], b, 0, 0, 0]
+}
+fn eia_iv(count: u32, bearer: u32, dir: u32) -> Vec<u8> {
+    let c = count.to_be_bytes(); let b = ((bearer & 0x1f) << 3) as u8; let d = ((dir & 1) << 7) as u8;
+    vec![c[0], c[1], c[2], c[3], b, 0, 0, 0, c[0] ^ d, c[1], c[2], c[3], b, 0, d, 0]
+}
+/// (key, COUNT, BEARER, DIRECTION) whose 128-EEA3 (or 128-EIA3) IV puts addition `pos` of the first initialisation round at exactly `target`
+/// (same idea as craft_add31, with the IV constrained to the 3GPP layout: free are the key, COUNT, BEARER and DIRECTION)
+pub fn craft_add31_3gpp(rng: &mut Rng, pos: usize, target: u64, eia: bool) -> Option<(Vec<u8>, u32, u32, u32)> {
+    const P: u64 = 0x7fff_ffff;
+    if pos < 2 || pos > 6 { return None; }
+    let cells = [0usize, 0, 4, 10, 13, 15];
+    let ivof = |c: u32, b: u32, d: u32| if eia { eia_iv(c, b, d) } else { eea_iv(c, b, d) };
+    let lval = |k: u8, v: u8| -> u64 { let s0 = zcell(0, k, v); (s0 as u64 + zrot(s0, 8) as u64) % P };
+    let mut lmap: std::collections::HashMap<u64, (u8, u8)> = std::collections::HashMap::new();
+    for k in 0..=255u8 { for v in 0..=255u8 { lmap.insert(lval(k, v), (k, v)); } }
+    let vc = if pos <= 5 { cells[pos] } else { 13 };
+    for _attempt in 0..3000 {
+        let mut key = rng.bytes(16);
+        let (count, bearer, dir) = (rng.next() as u32, rng.below(32) as u32, rng.below(2) as u32);
+        let iv = ivof(count, bearer, dir);
+        let lcur = lval(key[0], iv[0]);
+        for kb in 0..=255u8 {
+            key[vc] = kb;
+            let a = first_round_adds(&key, &iv)[pos - 1];
+            let rest = (a.0 as u64 % P + P - lcur) % P;
+            let need = ((target % P) + 2 * P - (a.1 as u64 % P) - rest) % P;
+            if let Some((k0, v0)) = lmap.get(&need) {
+                let mut key2 = key.clone(); key2[0] = *k0;
+                let count2 = (count & 0x00ff_ffff) | ((*v0 as u32) << 24);
+                let iv2 = ivof(count2, bearer, dir);
+                let b = first_round_adds(&key2, &iv2)[pos - 1];
+                if b.0 as u64 + b.1 as u64 == target { return Some((key2, count2, bearer, dir)); }
+            }
+        }
+    }
+    None
+}
+
 pub fn drive_stream(t: &mut Tracer, tier: &str, seed: u64, plan: Option<String>) {
     let thorough = tier == "thorough";
     let mut rng = Rng(seed ^ 0x20c);
@@ -216,6 +257,18 @@ pub fn drive_eea(t: &mut Tracer, tier: &str, seed: u64) {
         let msg = words(&mut rng, ((len + 31) / 32) as usize);
         eea_event(t, &sess(), &key, count, rng.below(32) as u32, rng.below(2) as u32, len, &msg);
         eia_event(t, &sess(), &key, count, rng.below(32) as u32, rng.below(2) as u32, len, &msg);
+    }
+    // crafted (key, COUNT, BEARER, DIRECTION): the derived IV puts an addition of the first initialisation round at exactly 2^31-1 / 2^31 / 2^31+1
+    for pos in 2..=6usize {
+        for target in [0x7fff_ffffu64, 0x8000_0000, 0x8000_0001] {
+            for eia in [false, true] {
+                if let Some((key, count, bearer, dir)) = craft_add31_3gpp(&mut rng, pos, target, eia) {
+                    let len = 100 + 3 * pos as u32;                       // never a multiple of 32 or one off: the class name stays eea/eia.len-other.add31-boundary
+                    let msg = words(&mut rng, ((len + 31) / 32) as usize);
+                    if eia { eia_event(t, &sess(), &key, count, bearer, dir, len, &msg); } else { eea_event(t, &sess(), &key, count, bearer, dir, len, &msg); }
+                }
+            }
+        }
     }
     // very long messages (up to 65 504 bits, the 3GPP maximum): rare events of the keystream generator (a carry that needs a second fold, about once
     // per 1200 LFSR steps) are reached through EEA3 / EIA3 themselves, incl. structured keys
